@@ -3,6 +3,7 @@ import QuantemModel.Model.Serialize
 import QuantemModel.Core.SerializeJson
 import QuantemModel.Model.SeqKeys
 import QuantemModel.Model.SerializeExt
+import QuantemModel.Generated.SerializeDispatch
 open Lean QuantemModel QuantemModel.Proto QuantemModel.Serialize
 
 namespace DrvC01
@@ -14,6 +15,31 @@ def skipOfJson (j : Json) : Except String Skip := do
 
 def errName : Err → String
   | .valueError => "ValueError" | .keyError => "KeyError" | .typeError => "TypeError"
+
+open QuantemModel.SerDispatch in
+def featFields : List (String × (Feat → Bool)) :=
+  [("isTensor", (·.isTensor)), ("isOptimizer", (·.isOptimizer)), ("hasStep", (·.hasStep)), ("hasGetLastLr", (·.hasGetLastLr)),
+   ("hasAddScalar", (·.hasAddScalar)), ("hasAddImage", (·.hasAddImage)), ("hasLog", (·.hasLog)), ("hasInfo", (·.hasInfo)),
+   ("isModule", (·.isModule)), ("hasModuleAttr", (·.hasModuleAttr)), ("moduleMentionsTorch", (·.moduleMentionsTorch)),
+   ("isNdarray", (·.isNdarray)), ("isInt", (·.isInt)), ("isFloat", (·.isFloat)), ("isStr", (·.isStr)), ("isBool", (·.isBool)),
+   ("isNone", (·.isNone)), ("hasDtype", (·.hasDtype)), ("hasItem", (·.hasItem)), ("isNpComplex", (·.isNpComplex)),
+   ("hasFspath", (·.hasFspath)), ("typeStrPathlib", (·.typeStrPathlib)), ("isAutoSerialize", (·.isAutoSerialize)),
+   ("isList", (·.isList)), ("isTuple", (·.isTuple)), ("isDict", (·.isDict)), ("isSet", (·.isSet)),
+   ("hasBitGenerator", (·.hasBitGenerator)), ("hasGetState", (·.hasGetState)), ("hasSetState", (·.hasSetState))]
+
+open QuantemModel.SerDispatch in
+def featOfJson (j : Json) : Except String Feat := do
+  let b (k : String) : Except String Bool := (fieldD j k (Json.bool false)).getBool?
+  pure { isTensor := (← b "isTensor"), isOptimizer := (← b "isOptimizer"), hasStep := (← b "hasStep"), hasGetLastLr := (← b "hasGetLastLr"),
+         hasAddScalar := (← b "hasAddScalar"), hasAddImage := (← b "hasAddImage"), hasLog := (← b "hasLog"), hasInfo := (← b "hasInfo"),
+         isModule := (← b "isModule"), hasModuleAttr := (← b "hasModuleAttr"), moduleMentionsTorch := (← b "moduleMentionsTorch"),
+         isNdarray := (← b "isNdarray"), isInt := (← b "isInt"), isFloat := (← b "isFloat"), isStr := (← b "isStr"), isBool := (← b "isBool"),
+         isNone := (← b "isNone"), hasDtype := (← b "hasDtype"), hasItem := (← b "hasItem"), isNpComplex := (← b "isNpComplex"),
+         hasFspath := (← b "hasFspath"), typeStrPathlib := (← b "typeStrPathlib"), isAutoSerialize := (← b "isAutoSerialize"),
+         isList := (← b "isList"), isTuple := (← b "isTuple"), isDict := (← b "isDict"), isSet := (← b "isSet"),
+         hasBitGenerator := (← b "hasBitGenerator"), hasGetState := (← b "hasGetState"), hasSetState := (← b "hasSetState") }
+
+def reprStr {α : Type} [Repr α] (x : α) : String := (toString (repr x)).splitOn "." |>.getLast!
 
 def callErrName : CallErr → String
   | .valueError => "ValueError" | .fileExists => "FileExistsError" | .fileNotFound => "FileNotFoundError"
@@ -64,6 +90,21 @@ def step (st : Unit) (j : Json) : Unit × Json :=
         -- `_is_numeric_scalar` on the isinstance facts of a value
         let f : NumFeat := { isArrayLike := (← boolField j "arraylike"), isPyNumber := (← boolField j "pynumber"), isNpReal := (← boolField j "npreal") }
         pure (okJson (Json.bool (isNumericScalar f)))
+    | "dispatch" =>
+        -- the dispatch chain on the facts of one value: hand model, text generated from the source, observable
+        let f ← featOfJson (← field j "feat")
+        pure (okJson (Json.mkObj [("model", Json.str (reprStr (SerDispatch.dispatch f))),
+                                  ("gen", Json.str (reprStr (Generated.SerializeDispatch.dispatchGen f))),
+                                  ("obs", Json.str (SerDispatch.obsOf (Generated.SerializeDispatch.dispatchGen f)))]))
+    | "kinds" =>
+        -- the table of facts per value kind the theorems are about (`featOf`, `branchOf`)
+        pure (okJson (Json.mkObj (SerDispatch.allKinds.map fun k =>
+          (reprStr k, Json.mkObj [("feat", Json.arr ((featFields.filter fun p => p.2 (SerDispatch.featOf k)).map (Json.str ·.1)).toArray),
+                                  ("branch", Json.str (reprStr (SerDispatch.branchOf k)))]))))
+    | "nodeobs" =>
+        -- which branch the node `encode` stores for a value shows (`nodeObs`), and its kind (`kindOf`)
+        let v ← valOfJson (← field j "v")
+        pure (okJson (Json.mkObj [("obs", Json.str (nodeObs (encode {} v))), ("kind", Json.str (reprStr (kindOf v)))]))
     | "dec" =>
         -- `str(n)` of the key layer (Model/SeqKeys.lean)
         let ns ← (← arrField j "ns").toList.mapM (·.getNat?)
